@@ -153,7 +153,7 @@ def run(driver_name, tier, seed, quiet=False):
     prop = driver.PROPERTY
     t0 = time.time()
     items = driver.work_items(tier, seed)
-    if seed:
+    if seed and not getattr(driver, "KEEP_ORDER", False):
         k = seed % max(1, len(items))
         items = items[k:] + items[:k]
     agg = {"counts": {}, "outcomes": set(), "samples": [], "violations": [], "items": len(items),
@@ -161,7 +161,7 @@ def run(driver_name, tier, seed, quiet=False):
     herrs = []
     ctx = mp.get_context("fork")
     nproc = min(NPROC, max(1, len(items)))
-    chunks = max(1, min(8, len(items) // (nproc * 8) or 1))
+    chunks = max(1, min(8, len(items) // (nproc * 16) or 1))
     with ctx.Pool(nproc, initializer=_init_worker, initargs=(driver_name, tier)) as pool:
         for res in pool.imap_unordered(_run_item, items, chunksize=chunks):
             if "harness_error" in res:
